@@ -179,7 +179,7 @@ PROPS["C15"] = dict(
          "switching from one to the other without stop_following), stop_following, changes of either getter's output (present/absent/error), "
          "update, get_last_request} on a recording settable; the same plus clock changes "
          "on a ConstantGetter; GetterFromHistory over a scripted history (value = query time, absent below a threshold) for all four "
-         "constructors with clock advances, set_delta, set_time, erroring clocks; TimeGetterFromGetter over all input categories",
+         "constructors with clock advances, set_delta, set_time, erroring clocks; TimeGetterFromGetter over all input categories + terminals that FOLLOW scripted getters (present/absent/erroring, several slots at once): Terminal::update order and early exit, update_terminals order, device update skipped on a follower error",
     trusted_base=COMMON_TB,
     assumptions=["clock + offset arithmetic does not overflow i64 (generators stay in range)"],
 )
@@ -241,7 +241,7 @@ PROPS["C08"] = dict(
     rule="inverter, gear train (raw ratio, tooth lists of 2..6, Quantity ratio on all 49 units), axle of 0..6 terminals, differential in all "
          "four trust modes and via new(): every subset of terminals having/lacking data (exhaustive for <=3 terminals), each terminal "
          "connected to an external terminal or not, data written on the own or the external side, 1..4 (8) set/update rounds; after each "
-         "update all own slots and all three reads of every terminal are printed and compared bit-for-bit",
+         "update all own slots and all three reads of every terminal are printed and compared bit-for-bit + terminals that FOLLOW scripted getters (present/absent/erroring, several slots at once): Terminal::update order and early exit, update_terminals order, device update skipped on a follower error",
     trusted_base=DEV_TB,
     assumptions=COMMON_AS,
     partial="Least-squares optimality, constraint satisfaction and fixed points are proved over an ordered field (tier R); which slots are "
@@ -255,7 +255,7 @@ PROPS["C13"] = dict(
     tol=NUM_TOL,
     rule="the C08 device scenarios with commands of all three kinds carrying distinct timestamps written on own/external terminals (some "
          "terminals without a command), 1..4 (8) rounds; chains of 1..5 inverters/gear trains/axles joined by connected terminals with a "
-         "command issued at either end and the devices updated in order; all command reads compared bit-for-bit",
+         "command issued at either end and the devices updated in order; all command reads compared bit-for-bit + terminals that FOLLOW scripted getters (present/absent/erroring, several slots at once): Terminal::update order and early exit, update_terminals order, device update skipped on a follower error",
     trusted_base=DEV_TB + [TIERL_NOTE],
     assumptions=COMMON_AS + ["gear_relays_newest assumes the gear train's two terminals are not wired to each other (degenerate loop)"],
 )
